@@ -350,7 +350,13 @@ def explore(prop, tier, seed, budget, fixed_runs, nworkers, quiet=False):
                     time.time() + SHRINK_BUDGET.get(tier, 60),
                     log=(lambda s: None) if quiet else print)
                 viols, _ = evalr.evaluate(small, hs)
-                det_v = next(x for x in viols if x['clause'] == v['clause'])
+                det_v = next((x for x in viols
+                              if x['clause'] == v['clause']), None)
+                if det_v is None:
+                    # the code under test carries state from run to run: the
+                    # minimised trace failed once and not again - report the
+                    # trace as generated
+                    small, steps, det_v = trace, 0, v
                 path = write_replay(prop, v['clause'], small, hs,
                                     det_v['detail'], rs,
                                     {'shrink_steps': steps,
